@@ -21,6 +21,9 @@ func (s *State) evalAssignment(right object.Object, node *ast.InfixExpression) o
 		log.Warnf("Not assigning %q", right.Inspect())
 		return right
 	}
+	// What gets stored is the value: a register (loop counter, integer parameter) is reused for something else
+	// once its loop or call is over.
+	right = object.CopyRegister(right)
 	switch node.Left.Value().Type() {
 	case token.DOT:
 		idxE, ok := node.Left.(*ast.IndexExpression)
@@ -34,7 +37,7 @@ func (s *State) evalAssignment(right object.Object, node *ast.InfixExpression) o
 		if !ok {
 			return s.Errorf("assignment to non index [] expression %T %v", node.Left, ast.DebugString(node.Left))
 		}
-		index := s.Eval(idxE.Index)
+		index := object.CopyRegister(s.Eval(idxE.Index)) // the key must not alias a register (reused later).
 		return s.evalIndexAssigment(idxE.Left, index, right)
 	case token.IDENT:
 		id := node.Left.(*ast.Identifier)
@@ -364,12 +367,12 @@ func (s *State) evalMapLiteral(node *ast.MapLiteral) object.Object {
 
 	for _, keyNode := range node.Order {
 		valueNode := node.Pairs[keyNode]
-		key := s.Eval(keyNode)
+		key := object.CopyRegister(s.Eval(keyNode)) // a map holds values, not registers that get reused.
 		if !object.Equals(key, key) {
 			log.Warnf("key %s is not hashable", key.Inspect())
 			return s.NewError("key " + key.Inspect() + " is not hashable")
 		}
-		value := s.Eval(valueNode)
+		value := object.CopyRegister(s.Eval(valueNode))
 		result = result.Set(key, value)
 	}
 	return result
